@@ -1,5 +1,5 @@
 """Property -> rules registry.  Rules are added here as they are built; a property without rules is not claimed."""
-from .rules import determinism, panics, wiring, traversal, annot, shape, hygiene, enums, shrinking, fresh, sharing, codegen, abi, pmoves, labels, runtime, typing as typing_rules, formatting, linear, memory, termination, focus
+from .rules import determinism, panics, wiring, traversal, annot, shape, hygiene, enums, shrinking, fresh, sharing, codegen, abi, pmoves, labels, runtime, typing as typing_rules, formatting, linear, memory, termination, focus, inputs
 
 
 def _thorough_only(rule):
@@ -59,7 +59,7 @@ PROPS = {
                         "immediates of the memory-management sequences are compile-time constants (field offsets <= 64, stack offsets < 2048)"],
     },
     "C11": {
-        "rules": [pmoves.rule_cycle, pmoves.rule_subst_order, codegen.rule_isel_mov_only],
+        "rules": [pmoves.rule_pmoves, pmoves.rule_cycle, pmoves.rule_subst_order, codegen.rule_isel_mov_only],
         "text": "Backend-specific pieces of the simultaneous-assignment scheme, decided per backend on folded emission lists run on the "
                 "symbolic machine: the value a cycle parks with store_temporary survives every kind of intermediate `mov` that can "
                 "occur while it is parked and reaches the restored temporary; the guard contains_spill_edge is folded over every "
@@ -83,7 +83,7 @@ PROPS = {
     },
     "C06": {
         "rules": [codegen.rule_isel("x86_64"), enums.rule_enum_dispatch, traversal.rule_trav(["axcut2backend::statements::code_statement::CodeStatement"]),
-                  abi.rule_abi_cached("x86_64"), pmoves.rule_cycle, memory.rule_mem("x86_64")],
+                  abi.rule_abi_cached("x86_64"), pmoves.rule_cycle, pmoves.rule_pmoves, memory.rule_mem("x86_64")],
         "text": "Instruction-selection templates of the x86-64 backend validated for every reachable operand placement (environment "
                 "positions straddling the register/spill boundary): each emission function (add, sub, mul, div, rem, mov, "
                 "load_immediate with boundary literals of every magnitude, the twelve conditional jumps) is folded from its MIR into "
@@ -97,7 +97,7 @@ PROPS = {
     },
     "C07": {
         "rules": [codegen.rule_isel("aarch64"), enums.rule_enum_dispatch, traversal.rule_trav(["axcut2backend::statements::code_statement::CodeStatement"]),
-                  abi.rule_abi_cached("aarch64"), pmoves.rule_cycle, memory.rule_mem("aarch64")],
+                  abi.rule_abi_cached("aarch64"), pmoves.rule_cycle, pmoves.rule_pmoves, memory.rule_mem("aarch64")],
         "text": "Instruction-selection templates of the AArch64 backend validated for every reachable operand placement (environment "
                 "positions straddling the register/spill boundary): each emission function (add, sub, mul, div, rem, mov, "
                 "load_immediate with boundary literals of every magnitude, the twelve conditional jumps) is folded from its MIR into "
@@ -111,7 +111,7 @@ PROPS = {
     },
     "C08": {
         "rules": [codegen.rule_isel("rv64"), enums.rule_enum_dispatch, traversal.rule_trav(["axcut2backend::statements::code_statement::CodeStatement"]),
-                  pmoves.rule_cycle, memory.rule_mem("rv64")],
+                  pmoves.rule_cycle, pmoves.rule_pmoves, memory.rule_mem("rv64")],
         "text": "Instruction-selection templates of the RISC-V backend validated for every reachable operand placement (environment "
                 "positions straddling the register/spill boundary): each emission function (add, sub, mul, div, rem, mov, "
                 "load_immediate with boundary literals of every magnitude, the twelve conditional jumps) is folded from its MIR into "
@@ -126,7 +126,8 @@ PROPS = {
     "C04": {
         "rules": [shape.rule_shape, shrinking.rule_chirality, shrinking.rule_samesrc, shrinking.rule_declsrc, shrinking.rule_idcmp, enums.rule_enum_maps({"core2axcut"}),
                   fresh.rule_fresh, fresh.rule_maxid, traversal.rule_trav(["core2axcut::shrinking::Shrinking", "scc_core_lang::traits::substitution::SubstVar",
-                                                                          "scc_core_lang::traits::typed_free_vars::TypedFreeVars"])],
+                                                                          "scc_core_lang::traits::typed_free_vars::TypedFreeVars"]),
+                  inputs.rule_useall_for(["core2axcut"], 35)],
         "text": "Structural necessary conditions of shrinking: all 18 well-typed (producer, consumer) cut shapes are handled before the "
                 "wildcard (R-SHAPE); the chirality collapse folds to the documented 6-row table (R-CHI, abstract interpretation of "
                 "shrink_binding); lifted definitions get exactly the free variables, in one order, on both sides (R-SAMESRC); generated "
@@ -144,7 +145,7 @@ PROPS = {
         "assumptions": ["the degree of the polynomial is not decided; growth from other sources than duplicated continuations was not found by reading"],
     },
     "C02": {
-        "rules": [hygiene.rule_hyg, hygiene.rule_seed, hygiene.rule_binders, hygiene.rule_fvscope, enums.rule_enum_maps({"fun2core"}), enums.rule_enum_surface,
+        "rules": [hygiene.rule_hyg, hygiene.rule_seed, hygiene.rule_binders, hygiene.rule_fvscope, inputs.rule_useall_for(["fun2core"], 50), enums.rule_enum_maps({"fun2core"}), enums.rule_enum_surface,
                   traversal.rule_trav(["fun::traits::used_binders::UsedBinders", "fun2core::compile::Compile"])],
         "text": "Hygiene and naming clauses of the Fun->Core translation, decided for every program at once: (R-HYG) the incoming "
                 "consumer is never placed under a binder copied verbatim from the source; (R-SEED) fresh names are seeded from the "
@@ -157,7 +158,7 @@ PROPS = {
         "rules": [traversal.rule_trav(["scc_core_lang::traits::substitution::Subst", "scc_core_lang::traits::substitution::SubstVar",
                                    "scc_core_lang::traits::uniquify::Uniquify", "scc_core_lang::traits::focus::Focusing",
                                    "scc_core_lang::traits::focus::Bind", "scc_core_lang::traits::typed_free_vars::TypedFreeVars"]), wiring.rule_wire_intra, shape.rule_shape,
-                  fresh.rule_fresh, fresh.rule_maxid, fresh.rule_shadow, focus.rule_bindorder],
+                  fresh.rule_fresh, fresh.rule_maxid, fresh.rule_shadow, focus.rule_bindorder, inputs.rule_useall_for(["scc_core_lang"], 100)],
         "text": "Structural necessary conditions of focusing: every Subst/SubstVar/Uniquify/Focusing/Bind/TypedFreeVars impl of Core "
                 "visits every subterm (R-TRAV), uniquify dominates the focusing of definitions (R-WIRE), and only producer-only "
                 "shapes reach the `cannot happen` arms of Term<Cns> (R-SHAPE). Does not decide evaluation order or semantic equivalence.",
@@ -166,7 +167,7 @@ PROPS = {
     "C05": {
         "rules": [traversal.rule_trav(["axcut::traits::free_vars::FreeVars", "axcut::traits::substitution::Subst",
                                    "axcut::traits::typed_free_vars::TypedFreeVars", "axcut::traits::linearize::Linearizing"]), wiring.rule_wire_intra, annot.rule_annot_freevars, shape.rule_shape,
-                  fresh.rule_fresh, linear.rule_linear_subst],
+                  fresh.rule_fresh, linear.rule_linear_subst, inputs.rule_useall_for(["axcut"], 50)],
         "text": "Structural necessary conditions of linearization: every FreeVars/Subst/TypedFreeVars/Linearizing impl of AxCut visits "
                 "every sub-statement (R-TRAV), free-variable annotation precedes linearization (R-WIRE) and is set on every path "
                 "(R-ANNOT), only Substitute reaches the panic of Statement::linearize (R-SHAPE).",
